@@ -134,20 +134,40 @@ func runLoss(bin, victim, phase string, kill bool, logDir string, emit emitter) 
 		time.Sleep(50 * time.Millisecond)
 	}
 	// ---- the loss -------------------------------------------------------------
+	var all []*psim.Proc
+	for _, id := range ids {
+		all = append(all, procs[id])
+	}
+	tl := newTimeline(all)
+	tl.victim = victim
+	tl.snapshot()
+	go tl.run()
 	t0 := time.Now()
 	switch {
 	case kill:
+		tl.mark("lose")
+		tl.mark("kill")
 		v.Kill()
-		v.WaitExit(2 * time.Second)
+		if v.WaitExit(2 * time.Second) {
+			tl.mark("exited")
+		}
 	case phase == "midshutdown":
+		tl.mark("lose")
 		v.Term()
 		time.Sleep(15 * time.Millisecond)
+		tl.mark("kill")
 		v.Kill()
-		v.WaitExit(2 * time.Second)
+		if v.WaitExit(2 * time.Second) {
+			tl.mark("exited")
+		}
 		s.Kill = true // from the survivors' point of view the node may or may not have announced its departure
 	default:
+		tl.mark("lose")
 		v.Term()
 		exited := v.WaitExit(grace + 2*time.Second)
+		if exited {
+			tl.mark("exited")
+		}
 		s.StopMs = int(time.Since(t0) / time.Millisecond)
 		check("terminates_within_grace", exited && time.Since(t0) <= grace+500*time.Millisecond, fmt.Sprintf("%d ms", s.StopMs))
 		// the nodes it notified stop routing to it at once: with two survivors both are notified
@@ -237,6 +257,8 @@ func runLoss(bin, victim, phase string, kill bool, logDir string, emit emitter) 
 			check("survivor_alive", false, p.ID)
 		}
 	}
+	s.Tl = tl.finish()
+	emit(&Step{Op: "Reset"})
 	emit(s)
 	_ = os.Remove("")
 	return nil
